@@ -118,7 +118,11 @@ func hostcall(self *VM, function string, span errors.Span, args []*value.Value) 
 		elem := args[0]
 		list := (*args[1]).(value.ValueList)
 
-		(*list.Values) = append((*list.Values), elem)
+		// The element gets a cell of its own: the list must not share the cell of a variable it was built from,
+		// otherwise `let l = [a]; l[0] = 1;` would also change `a`.
+		// (Lists and objects are still shared by reference, the reference is part of the value)
+		cell := *elem
+		(*list.Values) = append((*list.Values), &cell)
 		return args[1], nil
 	case "@trigger":
 		callback := (*args[0]).(value.ValueString).Inner
